@@ -17,11 +17,11 @@ def configs(tier):
                 continue  # quick: the other classes alternate between the two assertion settings
             if tier == "quick":
                 deep = (kind, a) in (("mixin", 0), ("light", 1))
-                out.append(dict(kind=kind, n=3, cfg=dict(CFG), hidden=True, d=2 if deep else 1, persistent=P2,
-                                assertions=a, judge="c01"))
+                out.append(dict(kind=kind, n=3, cfg=dict(CFG), hidden=kind in ("mixin", "light", "cross"), d=2 if deep else 1,
+                                persistent=P2, assertions=a, judge="c01"))
                 if kind in ("mixin", "light", "cross") and a == 1:
-                    out.append(dict(kind=kind, n=4, cfg=dict(CFG, extras=False), hidden=False, d=1, persistent=P2,
-                                    assertions=a, judge="c01"))
+                    out.append(dict(kind=kind, n=4, cfg=dict(CFG, extras=False), hidden=False, d=0 if kind == "light" else 1,
+                                    persistent=P2, assertions=a, judge="c01"))
             else:
                 out.append(dict(kind=kind, n=3, cfg=dict(CFG), hidden=True, d=3, persistent=P2, assertions=a, judge="c01"))
                 out.append(dict(kind=kind, n=4, cfg=dict(CFG), hidden=kind in ("mixin", "light"), d=2, persistent=P2,
